@@ -2,7 +2,7 @@
 import torch
 from hypothesis import strategies as st
 
-from pbt.harness import Sub, Violation, SutRaised, require, sut
+from pbt.harness import Sub, Violation, SutRaised, require, sut, Unchanged, same_twice
 from pbt import gen
 from pbt.models import ExactNet
 
@@ -88,7 +88,8 @@ def ism_case(case, ctx):
     ref_hat = [r.reshape(B, A, W, *r.shape[1:]) for r in ref_hat]
 
     if mode == "raw":
-        y0, yh = sut(saturation_mutagenesis, model, X, raw_outputs=True, **kw)
+        with Unchanged("ism-args-modified", args=list(args)):
+            y0, yh = same_twice(saturation_mutagenesis, "ism-second-call-differs", model, X, raw_outputs=True, **kw)
         require(torch.equal(X, Xc), "ism-input-modified", "")
         if case["container"] == "tensor":
             require(isinstance(y0, torch.Tensor) and isinstance(yh, torch.Tensor), "ism-raw-container", "tensor model must give tensors")
